@@ -168,6 +168,11 @@ func (rw *Rewriter) Visit(node sql.Node) (w sql.Visitor, n sql.Node, err error) 
 		// If used, ensure the value is same for the duration of the statement
 		jd := julianDayAsNumberLit(rw.nowFn())
 
+		// A date/time function without a time value uses 'now'.
+		if rw.RewriteTime {
+			addImplicitNow(n)
+		}
+
 		if rw.RewriteTime && len(n.Args) > 0 &&
 			(strings.EqualFold(n.Name.Name, "date") ||
 				strings.EqualFold(n.Name.Name, "time") ||
@@ -229,6 +234,23 @@ func isNow(e sql.Expr) bool {
 		return strings.EqualFold(s.Value, "now")
 	}
 	return false
+}
+
+// addImplicitNow makes the time value of a date/time function call explicit
+// if it has been omitted, since SQLite uses 'now' in that case.
+func addImplicitNow(n *sql.Call) {
+	now := &sql.StringLit{Value: "now"}
+	switch {
+	case len(n.Args) == 0 &&
+		(strings.EqualFold(n.Name.Name, "date") ||
+			strings.EqualFold(n.Name.Name, "time") ||
+			strings.EqualFold(n.Name.Name, "datetime") ||
+			strings.EqualFold(n.Name.Name, "julianday") ||
+			strings.EqualFold(n.Name.Name, "unixepoch")):
+		n.Args = []sql.Expr{now}
+	case len(n.Args) == 1 && strings.EqualFold(n.Name.Name, "strftime"):
+		n.Args = append(n.Args, now)
+	}
 }
 
 func julianDayAsNumberLit(t time.Time) *sql.NumberLit {
